@@ -156,6 +156,12 @@ JudgeBackward(e) ==
      ELSE IF Len(evs) # Cardinality(expectU) THEN Bad("eval-once")
      ELSE IF \E i \in 1..Len(evs) : ~TMatch(evs[i].adj, adj[nodeOf(evs[i].u)].x) THEN Bad("eval-adjoint")
      ELSE IF badOrder THEN Bad("eval-order")
+     \* the closure receives the tracked-at-use flags of its operands, and the operands are un-tracked while it runs
+     ELSE IF \E i \in 1..Len(evs) : Has(evs[i], "t") /\
+               evs[i].t # [k \in 1..Len(S.nodes[nodeOf(evs[i].u)].kids) |-> S.nodes[nodeOf(evs[i].u)].kids[k].trk]
+          THEN Bad("eval-flags")
+     ELSE IF \E i \in 1..Len(evs) : Has(evs[i], "ct") /\ \E k \in 1..Len(evs[i].ct) : evs[i].ct[k]
+          THEN Bad("eval-operands-tracked")
      ELSE JS("", S2, dig, <<"passes">> \o [i \in 1..Len(evs) |-> "evals"] \o [n \in 1..Cardinality(stored) |-> "adopted"])
 
 \* symbolic domain: after an update the new parameter values are the observed ones (so that terms do not
